@@ -1,0 +1,18 @@
+//go:build verif
+
+package node
+
+import (
+	"k8s.io/apimachinery/pkg/runtime"
+	"k8s.io/client-go/tools/record"
+	"sigs.k8s.io/controller-runtime/pkg/client"
+
+	register "github.com/AliyunContainerService/terway/pkg/controller"
+	"github.com/AliyunContainerService/terway/pkg/controller/status"
+)
+
+// NewVerifReconcileNode builds the node controller with injected dependencies (in production it is
+// only constructed inside the init() registration closure from a manager.Manager).
+func NewVerifReconcileNode(c client.Client, scheme *runtime.Scheme, aliyun register.Interface, rec record.EventRecorder, supportEFLO bool, cache *status.Cache[status.NodeStatus]) *ReconcileNode {
+	return &ReconcileNode{client: c, scheme: scheme, aliyun: aliyun, record: rec, supportEFLO: supportEFLO, nodeStatusCache: cache}
+}
